@@ -270,8 +270,7 @@ class FuzzyUnion(SameArrayShapeMixin, Command):
             arrays, lineno=self.argument_lines.get("InFieldNames")
         )
 
-        result = sum(arrays)
-        result /= float(len(arrays))
+        result = sum(arrays) / float(len(arrays))
 
         return insure_fuzzy(result, FUZZY_MIN, FUZZY_MAX)
 
@@ -303,9 +302,9 @@ class FuzzyWeightedUnion(SameArrayShapeMixin, Command):
 
         result = arrays[0] * weights[0]
         for weight, arr in zip(weights[1:], arrays[1:]):
-            result += arr * weight
+            result = result + arr * weight
 
-        result /= sum(weights)
+        result = result / float(sum(weights))
 
         return insure_fuzzy(result, FUZZY_MIN, FUZZY_MAX)
 
@@ -532,8 +531,8 @@ class CvtFromFuzzy(Command):
 
         y1 = float(true_threshold)
         y2 = float(false_threshold)
-        x1 = FUZZY_MAX
-        x2 = FUZZY_MIN
+        x1 = float(FUZZY_MAX)
+        x2 = float(FUZZY_MIN)
 
         result = arr - x1
         result *= y2 - y1
